@@ -76,3 +76,26 @@ PROPS["C08"] = {
         },
     ],
 }
+
+PROPS["C06"] = {
+    "rule": "TLC enumerates every (list, gauge-vector) input: lists of n endpoints with status in all six values "
+            "and priorities, gauges 0..G.  Each input is run through the three real selectors (balancer.Factory + "
+            "real stats.Collector): least-connections with gauge updates, 2n+1 consecutive and 200 concurrent "
+            "round-robin tickets, 1500 priority selections.  Non-trivial = at least two routable endpoints.",
+    "exhaustive": True,
+    "assumptions": ["priority 'eventually picked' is checked statistically: 1500 selections, miss probability of a "
+                    "fair selector < 1e-15 per list"],
+    "parts": [
+        {
+            "name": "balancer",
+            "mc": [{"module": "Balancer", "cfg": "Balancer_mc.cfg", "quick_params": {"MaxN": 2}, "thorough_params": {"MaxN": 3}}],
+            "quick": {"gen": [{"module": "Balancer", "cfg": "Balancer_gen.cfg",
+                               "params": {"MaxN": 3, "Prios": "{0, 1}", "MaxGauge": 1}}]},
+            "thorough": {"gen": [{"module": "Balancer", "cfg": "Balancer_gen.cfg",
+                                  "params": {"MaxN": 4, "Prios": "{0, 1, 2}", "MaxGauge": 1}}], "sample": 150000},
+            "pkg": "internal/adapter/balancer", "test": "TestVerif_Balancer",
+            "trace": {"module": "BalancerTrace", "cfg": "Balancer_trace.cfg"},
+            "nontrivial": lambda s: sum(1 for x in s[0] if x["st"] in ("healthy", "busy", "warming")) >= 2,
+        },
+    ],
+}
